@@ -163,6 +163,8 @@ def asan_env(shadow):
     env["PYTHONPATH"] = shadow
     env["PYTHONDONTWRITEBYTECODE"] = "1"
     env["NUMBA_DISABLE_JIT"] = "1"
+    env["OMP_NUM_THREADS"] = "2"          # the sanitizer run observes memory accesses, not schedules
+    env["OMP_WAIT_POLICY"] = "passive"
     env["NUMBA_CACHE_DIR"] = os.path.join(scratch(), "numba")
     return env
 
